@@ -1,18 +1,28 @@
 from runner import Property, Engine
 import opsgen
 
+# case kinds of the container engine that are integrated (model, proofs, drivers, generator)
+KINDS = [("arr", "Dsa", "DsaModel"), ("llist", "LList", "LListModel"), ("slist", "SList", "SListModel")]
+
 PROP = Property(
     pid="C19",
     properties_v="Properties/Properties_C19.v",
-    coq_targets=["Extract/Extract_Dsa.vo", "Extract/Extract_LList.vo"],
-    engines=[Engine(name="dsa", c_srcs=["harness/dsa_drv.c", "harness/dsa_arr.c", "harness/dsa_llist.c"],
-                    ml_srcs=["ocaml/gen/DsaModel.ml", "ocaml/gen/LListModel.ml", "ocaml/dsa_reg.ml", "ocaml/dsa_arr.ml", "ocaml/dsa_llist.ml", "ocaml/dsa_drv.ml"],
+    coq_targets=["Extract/Extract_%s.vo" % x for (_, x, _) in KINDS],
+    engines=[Engine(name="dsa",
+                    c_srcs=["harness/dsa_drv.c"] + ["harness/dsa_%s.c" % k for (k, _, _) in KINDS],
+                    # the skip list draws its coin flips from ares_rand_bytes: replaced at link time by
+                    # a deterministic stream defined in harness/dsa_slist.c (no other kind uses it)
+                    wraps=["ares_rand_bytes"],
+                    ml_srcs=["ocaml/gen/%s.ml" % m for (_, _, m) in KINDS] + ["ocaml/dsa_reg.ml"]
+                            + ["ocaml/dsa_%s.ml" % k for (k, _, _) in KINDS] + ["ocaml/dsa_drv.ml"],
                     gen=opsgen.gen, n_quick=1500, n_thorough=30000)],
     trusted_base=["Coq 8.16.1 kernel + coqc (vm_compute; no native_compute)",
                   "extraction (ExtrOcamlBasic only, no Extract Constant) + OCaml 4.13.1",
-                  "gen/regen.py constants (ARES__ARRAY_MIN, status codes) compiled against the working tree",
-                  "harness/dsa_drv.c, ocaml/dsa_drv.ml, gen/opsgen.py (correspondence check)",
-                  "clang 14 ASan/UBSan"],
-    assumptions=["containers are hand-modelled (coq/Dsa/*.v); the tie to the C code is the correspondence run"],
+                  "gen/regen.py constants (ARES__ARRAY_MIN, ARES__HTABLE_*, status codes) compiled against the working tree",
+                  "harness/dsa_drv.c + harness/dsa_<kind>.c, ocaml/dsa_drv.ml + ocaml/dsa_<kind>.ml, gen/opsgen*.py (correspondence check)",
+                  "harness/dsa_slist.c: link-time replacement of ares_rand_bytes by a deterministic stream",
+                  "clang 14 ASan/UBSan/LSan"],
+    assumptions=["containers are hand-modelled (coq/Dsa/*.v); the tie to the C code is the correspondence run",
+                 "skip list: the comparison callback's sign is a total preorder (antisymmetric sign, transitive <=); coin flips are not modelled, theorems quantify over every level choice"],
     rule="random/boundary-directed operation sequences per container; non-trivial = at least two state-changing operations succeeded in the model; distinct by case text",
 )
